@@ -48,9 +48,14 @@ def write_inventory(prog):
 
 
 # --------------------------------------------------------------------------------------
+BUILTIN_TYPE_NAMES = {"int", "float", "complex", "str", "bytes", "bool", "list", "tuple", "dict", "set", "frozenset", "object", "type"}
+
+
 def _is_literal(node, depth=0):
     if isinstance(node, ast.Constant):
         return True
+    if isinstance(node, ast.Name) and node.id in BUILTIN_TYPE_NAMES and depth > 0:
+        return True  # (int, float): a tuple of builtin types, e.g. for isinstance
     if isinstance(node, (ast.List, ast.Tuple, ast.Set)) and depth < 3:
         return all(_is_literal(e, depth + 1) for e in node.elts)
     if isinstance(node, ast.Dict) and depth < 3:
@@ -85,12 +90,6 @@ def _simple_arg(node):
     """argument expressions that can be substituted textually without changing evaluation"""
     if isinstance(node, (ast.Name, ast.Constant)):
         return True
-    if isinstance(node, ast.Attribute):
-        return _simple_arg(node.value)
-    if isinstance(node, ast.Subscript):
-        return _simple_arg(node.value) and _simple_arg(node.slice)
-    if isinstance(node, (ast.List, ast.Tuple)) and len(node.elts) <= 2:
-        return all(_simple_arg(e) for e in node.elts)
     return False
 
 
@@ -254,7 +253,7 @@ class Inliner:
                 rename[n] = f"{n}__h{self.counter}"
         for p, v in bound.items():
             uses = sum(1 for n in ast.walk(helper.node) if isinstance(n, ast.Name) and n.id == p and isinstance(n.ctx, ast.Load))
-            if p in stores or not (_simple_arg(v) or uses <= 1):
+            if p in stores or not _simple_arg(v):
                 # bind through a temporary (keeps single evaluation)
                 nm = p if p not in caller_names else None
                 if nm is None:
@@ -399,7 +398,88 @@ class Inliner:
                             return hdr, n, h, self_expr
         return None
 
+    def _inline_generator_loop(self, fn, s, caller_names):
+        """for T in G(args): BODY   with G a new generator helper  ->  G's body with every `yield e` replaced by
+        `T = e; BODY` (the statements of a generator interleave with the loop body exactly like that)"""
+        if not (isinstance(s, ast.For) and isinstance(s.iter, ast.Call) and not s.orelse):
+            return None
+        h, self_expr = self._helper_for(fn, s.iter)
+        if h is None or h.qual == fn.qual or h.nested or h.is_property or h.is_classmethod:
+            return None
+        hb = self._body(h)
+        yields = [n for x in hb for n in ast.walk(x) if isinstance(n, (ast.Yield, ast.YieldFrom))]
+        if not yields or len(yields) > 2 or any(isinstance(y, ast.YieldFrom) or y.value is None for y in yields):
+            return None
+        if len(hb) > MAX_HELPER_STMTS:
+            return None
+        # yields must be plain expression statements, outside try/with; no return value, no nested defs
+        ystm = [x for b in hb for x in ast.walk(b) if isinstance(x, ast.Expr) and isinstance(x.value, ast.Yield)]
+        if len(ystm) != len(yields):
+            return None
+        for b in hb:
+            for x in ast.walk(b):
+                if isinstance(x, (ast.Try, ast.With, ast.FunctionDef, ast.ClassDef, ast.Lambda, ast.Global, ast.Nonlocal, ast.While)):
+                    return None
+                if isinstance(x, ast.Return) and x.value is not None:
+                    return None
+                if isinstance(x, ast.Return):
+                    return None
+        sensitive = self._frame_sensitive_names()
+        for x in ast.walk(h.node):
+            if isinstance(x, ast.Call):
+                d = dotted(x.func) or ""
+                last = d.split(".")[-1] if d else (x.func.attr if isinstance(x.func, ast.Attribute) else "")
+                if (isinstance(x.func, ast.Name) and x.func.id in BUILTIN_SCOPE_SENSITIVE) or (last in sensitive and last not in BUILTIN_SCOPE_SENSITIVE):
+                    return None
+        # the loop body must not steer the generator: break/continue at its own level would act on the helper's loop
+        def steers(stmts):
+            for x in stmts:
+                if isinstance(x, (ast.Break, ast.Continue)):
+                    return True
+                if isinstance(x, (ast.For, ast.While, ast.FunctionDef, ast.ClassDef)):
+                    continue
+                for fld in ("body", "orelse", "finalbody"):
+                    if steers(getattr(x, fld, []) or []):
+                        return True
+                if isinstance(x, ast.Try) and any(steers(hh.body) for hh in x.handlers):
+                    return True
+            return False
+
+        if steers(s.body):
+            return None
+        b = self._bind(h, s.iter, self_expr, caller_names)
+        if b is None:
+            return None
+        prelude, mapping, rename = b
+        body = [_Subst(mapping, rename).visit(copy.deepcopy(x)) for x in hb]
+
+        def repl(stmts):
+            out = []
+            for x in stmts:
+                if isinstance(x, ast.Expr) and isinstance(x.value, ast.Yield):
+                    out.append(ast.Assign(targets=[copy.deepcopy(s.target)], value=x.value.value, lineno=s.lineno, col_offset=0))
+                    out.extend(copy.deepcopy(y) for y in s.body)
+                    continue
+                for fld in ("body", "orelse"):
+                    if hasattr(x, fld) and isinstance(getattr(x, fld), list):
+                        setattr(x, fld, repl(getattr(x, fld)))
+                out.append(x)
+            return out
+
+        body = repl(body)
+        for x in body:
+            for n in ast.walk(x):
+                if hasattr(n, "lineno"):
+                    n.lineno = s.lineno
+                    n.end_lineno = s.lineno
+        self.inlined.append((fn.qual, h.qual))
+        caller_names |= set(rename.values()) | {n.id for x in body for n in ast.walk(x) if isinstance(n, ast.Name)}
+        return prelude + body
+
     def _inline_stmt(self, fn, s, caller_names):
+        gen = self._inline_generator_loop(fn, s, caller_names)
+        if gen is not None:
+            return gen
         found = self._find_call(fn, s)
         if found is None:
             return None
